@@ -3,29 +3,29 @@
 # Confirms a seeded change in its scratch worktree: (1) demo alone passes with the whole suite,
 # (2) with the library change the existing suite still passes and only the demo fails.
 # On success copies patch.diff, demo.diff, README.md and writes meta.json under /verif/seeded/<dest-id>/.
-WT=$1; VAR=$2; ID=$3
+WT=$1; VAR=$2; ID=$3; mkdir -p /root/scratch/seedlogs
 cd "$WT" || exit 2
 git checkout -q -- . && git clean -fdq -e SEEDED -e target
 git apply "$VAR/demo.diff" || { echo "demo does not apply"; exit 2; }
-cargo test --workspace --no-fail-fast --offline > /tmp/seed_clean.log 2>&1
-CLEAN_FAIL=$(grep -c "^test [A-Za-z_:0-9]* \.\.\. FAILED" /tmp/seed_clean.log)
-CLEAN_PASS=$(grep -c "^test .* ok$" /tmp/seed_clean.log)
+cargo test --workspace --no-fail-fast --offline > /root/scratch/seedlogs/$ID.clean.log 2>&1
+CLEAN_FAIL=$(grep -c "^test [A-Za-z_:0-9]* \.\.\. FAILED" /root/scratch/seedlogs/$ID.clean.log)
+CLEAN_PASS=$(grep -c "^test .* ok$" /root/scratch/seedlogs/$ID.clean.log)
 git apply "$VAR/patch.diff" || { echo "patch does not apply"; exit 2; }
-cargo test --workspace --no-fail-fast --offline > /tmp/seed_mut.log 2>&1
-MUT_FAIL=$(grep "^test [A-Za-z_:0-9]* \.\.\. FAILED" /tmp/seed_mut.log | sort -u)
+cargo test --workspace --no-fail-fast --offline > /root/scratch/seedlogs/$ID.mut.log 2>&1
+MUT_FAIL=$(grep "^test [A-Za-z_:0-9]* \.\.\. FAILED" /root/scratch/seedlogs/$ID.mut.log | sort -u)
 MUT_FAILN=$(echo "$MUT_FAIL" | grep -c FAILED)
-COMPILE_ERR=$(grep -c "could not compile" /tmp/seed_mut.log)
+COMPILE_ERR=$(grep -c "could not compile" /root/scratch/seedlogs/$ID.mut.log)
 echo "clean: pass=$CLEAN_PASS fail=$CLEAN_FAIL ; mutated: failing=$MUT_FAILN compile_errors=$COMPILE_ERR"
 echo "$MUT_FAIL"
 # a failing test counts against the seed when it belongs to the pinned baseline suite
-python3 - <<'PY' > /tmp/seed_baseline_names.txt
+python3 - <<'PY' > /root/scratch/seedlogs/$ID.names.txt
 import json
 for n in json.load(open('/root/.vp/BASELINE.json'))['stable_pass']:
     print(n.split('::', 1)[1])
 PY
 NON_DEMO=0
 for t in $(echo "$MUT_FAIL" | grep FAILED | sed 's/^test \([^ ]*\) .*/\1/'); do
-  if grep -qx "$t" /tmp/seed_baseline_names.txt; then NON_DEMO=$((NON_DEMO+1)); echo "baseline test fails: $t"; fi
+  if grep -qx "$t" /root/scratch/seedlogs/$ID.names.txt; then NON_DEMO=$((NON_DEMO+1)); echo "baseline test fails: $t"; fi
 done
 git checkout -q -- . && git clean -fdq -e SEEDED -e target
 if [ "$CLEAN_FAIL" = "0" ] && [ "$MUT_FAILN" -gt 0 ] && [ "$NON_DEMO" = "0" ] && [ "$COMPILE_ERR" = "0" ]; then
